@@ -20,11 +20,36 @@ pub struct A8(pub [u8; 16]);
 unsafe impl Zeroable for A8 {}
 unsafe impl Pod for A8 {}
 
+/// user-defined length prefixes (`PodLength` is blanket-implemented): little-endian, N bytes wide
+#[derive(Clone, Copy)]
+#[repr(transparent)]
+pub struct PodUN<const N: usize>(pub [u8; N]);
+unsafe impl<const N: usize> Zeroable for PodUN<N> {}
+unsafe impl<const N: usize> Pod for PodUN<N> {}
+impl<const N: usize> TryFrom<usize> for PodUN<N> {
+    type Error = core::num::TryFromIntError;
+    fn try_from(v: usize) -> Result<Self, Self::Error> {
+        if N < 8 && (v as u128) >= (1u128 << (8 * N)) {
+            return Err(u8::try_from(256u16).unwrap_err());
+        }
+        let mut a = [0u8; N];
+        a.copy_from_slice(&(v as u128).to_le_bytes()[..N]);
+        Ok(PodUN(a))
+    }
+}
+impl<const N: usize> From<PodUN<N>> for usize {
+    fn from(p: PodUN<N>) -> usize {
+        let mut b = [0u8; 16];
+        b[..N].copy_from_slice(&p.0);
+        usize::try_from(u128::from_le_bytes(b)).expect("value out of range for usize")
+    }
+}
+
 pub const NELEM: usize = 10;
-pub const NPREF: usize = 4;
+pub const NPREF: usize = 7;
 pub const ELEM_NAMES: [&str; NELEM] = ["[u8;1]", "[u8;3]", "E35", "u16", "u32", "u64", "u128", "A8x16", "()", "[u64;0]"];
-pub const PREF_NAMES: [&str; NPREF] = ["PodU16", "PodU32", "PodU64", "PodU128"];
-pub const PREF_SIZE: [usize; NPREF] = [2, 4, 8, 16];
+pub const PREF_NAMES: [&str; NPREF] = ["PodU16", "PodU32", "PodU64", "PodU128", "u8", "custom 24-bit", "custom 48-bit"];
+pub const PREF_SIZE: [usize; NPREF] = [2, 4, 8, 16, 1, 3, 6];
 
 /// Trait object-free dispatch: call the generic function `$f::<T, L>($args)`.
 macro_rules! dispatch {
@@ -33,7 +58,10 @@ macro_rules! dispatch {
             0 => dispatch!(@e $ei, PodU16, $f ( $($a),* )),
             1 => dispatch!(@e $ei, PodU32, $f ( $($a),* )),
             2 => dispatch!(@e $ei, PodU64, $f ( $($a),* )),
-            _ => dispatch!(@e $ei, PodU128, $f ( $($a),* )),
+            3 => dispatch!(@e $ei, PodU128, $f ( $($a),* )),
+            4 => dispatch!(@e $ei, u8, $f ( $($a),* )),
+            5 => dispatch!(@e $ei, PodUN<3>, $f ( $($a),* )),
+            _ => dispatch!(@e $ei, PodUN<6>, $f ( $($a),* )),
         }
     };
     (@e $ei:expr, $L:ty, $f:ident ( $($a:expr),* )) => {
